@@ -1,7 +1,7 @@
 (* C16 - channels are born with a founder, die with the last member, or come from config.
    Statements only; proofs in IRCP.JoinP and IRCP.ChanP. *)
 From IRC Require Import Str Wild Glob Parse Reply State Handlers Step.
-From IRCP Require Import JoinP ChanP InvDefs InvStep Reach PreconfP.
+From IRCP Require Import JoinP ChanP InvDefs InvStep Reach PreconfP BornFrame.
 From stdpp Require Import gmap.
 
 (* a name that is not a channel: the check phase always says (join, create) - only the quota can refuse *)
@@ -106,7 +106,32 @@ Theorem C16_preconfigured_kept_by_every_step : forall cfg verify w i e w' o cl, 
   exists co', chans (sh w') !! ch = Some co' /\ ch_preconf co' = true /\ ch_default co' = ch_default co.
 Proof. exact step_pkeeps. Qed.
 
+(* BORN WITH A FOUNDER, for every history.  Over every event of every connection: a channel that is there after the step and was
+   not there before it was named in a JOIN line of a registered connection - this very event - and is that connection's fresh
+   channel: the joiner its only member, founder and operator, no topic, default settings, empty lists - also when the JOIN
+   list repeats the name or mixes fresh names with existing channels.  No other command, no registration, no session end
+   and no KILL creates a channel. *)
+Theorem C16_channel_born_only_by_join : forall cfg verify w i e w' o cl ch co', Inv w -> step cfg verify w i e = Ok (w', o, cl) ->
+  chans (sh w) !! ch = None -> chans (sh w') !! ch = Some co' ->
+  exists c nick l chs0, conns w !! i = Some c /\ c_auth c = true /\ c_nick c = Some nick /\ e = EvLine l /\
+    (exists msg keys, tokenize l = inl msg /\ command_of_message msg = inl (JOIN chs0 keys)) /\ ch ∈ chs0 /\
+    co' = chan_new nick /\ ch_users co' = {[nick := rank_creator]} /\ r_founder rank_creator = true /\ r_operator rank_creator = true /\
+    cm_founders (ch_modes co') = {[nick]} /\ cm_operators (ch_modes co') = {[nick]} /\ ch_topic co' = None /\ ch_preconf co' = false.
+Proof.
+  intros cfg verify w i e w' o cl ch co' I H Hf Hc.
+  destruct (channel_born_only_by_join cfg verify w i e w' o cl ch co' I H Hf Hc) as [c [nick [l [chs0 [H1 [H2 [H3 [H4 [H5 [H6 ->]]]]]]]]]].
+  exists c, nick, l, chs0. repeat (split; [assumption|]). split; [reflexivity|]. cbn. repeat split.
+Qed.
+
+(* a command of a registered connection other than JOIN creates no channel *)
+Theorem C16_other_commands_create_no_channel : forall cfg verify i s c cmd msg r,
+  InvS s -> conn_ok i s c -> c_auth c = true -> dispatch cfg verify i s c cmd msg = Ok r ->
+  (forall chs0 keys, cmd <> JOIN chs0 keys) -> forall ch, chans s !! ch = None -> chans (h_sh r) !! ch = None.
+Proof. exact dispatch_nborn. Qed.
+
 Print Assumptions C16_no_empty_channel.
+Print Assumptions C16_channel_born_only_by_join.
+Print Assumptions C16_other_commands_create_no_channel.
 Print Assumptions C16_create_decision.
 Print Assumptions C16_create_effect.
 Print Assumptions C16_fresh_channel.
